@@ -53,7 +53,7 @@ func init() { register(c06{}) }
 
 func (c06) ID() string { return "C06" }
 func (c06) Rule() string {
-	return "(rt) registry codecs .201/.202: Encode then Decode, decoded frame byte-equal to the source; typed htj2k.Parameters, generic parameters and nil; BlockWidth/Height in {4..64}, NumLevels 0..6; sizes: all small sizes, 1xN / Nx1 up to 600, sampled grid to 80x80, random to 600, 888x459; contents: full-depth noise, all-zero after level shift, impulses, low-amplitude noise, constant. " +
+	return "(rt) registry codecs .201/.202: Encode then Decode, decoded frame byte-equal to the source; typed htj2k.Parameters, generic parameters and nil; BlockWidth/Height in {4..64}, NumLevels 0..6; sizes: all small sizes, 1xN / Nx1 up to 600, sampled grid to 80x80, random to 600, 888x459, (dense) full 64x64 code-blocks of 12..16-bit noise; contents: full-depth noise, all-zero after level shift, impulses, low-amplitude noise, constant. " +
 		"(fixture) every lossless codestream of test-data/htj2k/interop/manifest.json decoded with jpeg2000.Decoder + htj2k.NewHTDecoder equals its input.raw (finite set, executed completely). " +
 		"non-trivial: encoder accepted and the decoded frame was compared; distinct = distinct descriptor"
 }
@@ -161,6 +161,26 @@ func (c06) Build(tier string, seed uint64) []any {
 		r := gen.Sub(seed, "C06", "rand", i)
 		c := &c06Case{Gen: "rand", W: 1 + r.Intn(600), H: 1 + r.Intn(600)}
 		randC06Config(r, c)
+		cs = append(cs, c)
+	}
+	// (dense) full 64x64 code-blocks of incompressible 12..16-bit samples: the longest
+	// code-block segments the block coder can emit
+	nDense := 6
+	if th {
+		nDense = 120
+	}
+	for i := 0; i < nDense; i++ {
+		r := gen.Sub(seed, "C06", "dense", i)
+		c := &c06Case{Gen: "dense"}
+		randC06Config(r, c)
+		c.BA, c.BS = 16, gen.Pick(r, 16, 16, 15, 14, 12)
+		c.BW, c.BH = 64, 64
+		c.Class = "noise"
+		c.Levels = gen.Pick(r, 0, 0, 1, 2)
+		c.W, c.H = (64<<uint(c.Levels))+r.Intn(70), (64<<uint(c.Levels))+r.Intn(70)
+		if i == 0 {
+			c.BS, c.Levels, c.W, c.H, c.SPP = 16, 0, 64, 64, 1
+		}
 		cs = append(cs, c)
 	}
 	r := gen.Sub(seed, "C06", "fixsize", 0)
